@@ -1,24 +1,37 @@
 #!/venv/bin/python
-"""MANIFEST.setup_cmd: full .vo build of the whole Coq development, offline."""
+"""MANIFEST.setup_cmd: offline full (.vo) build of the Coq development behind every claimed check.
+
+1. translators regenerate the model files derived from /repo's current source (plugins' pre_build),
+2. `make` builds the COQ_TARGETS of every property claimed in MANIFEST.json (and what they depend on),
+3. the forbidden-vernacular scan runs over everything those targets depend on.
+"""
+import importlib
+import json
 import sys
 from pathlib import Path
-sys.path.insert(0, str(Path(__file__).resolve().parent))
-import common
 
-# translators: regenerate the model files that are derived from /repo's current source
-import importlib
-for plug in sorted((Path(__file__).resolve().parent / "props").glob("C*.py")):
-    mod = importlib.import_module(f"props.{plug.stem}")
+HERE = Path(__file__).resolve().parent
+sys.path.insert(0, str(HERE))
+import common  # noqa: E402
+
+sys.path.insert(0, str(common.SRC))
+
+claimed = [c["property_id"] for c in json.loads((HERE.parent / "MANIFEST.json").read_text())["checks"]]
+targets: list[str] = []
+for pid in claimed:
+    mod = importlib.import_module(f"props.{pid}")
     if hasattr(mod, "pre_build"):
         mod.pre_build()
-
+    for t in mod.COQ_TARGETS:
+        if t not in targets:
+            targets.append(t)
 try:
-    out = common.coq_build(None)
+    common.coq_build(targets)
 except common.BuildError as e:
     print(e.log)
     sys.exit(1)
-hits = common.hygiene_scan()
+hits = common.hygiene_scan(common.dep_closure(targets))
 if hits:
     print("forbidden vernacular:\n" + "\n".join(hits))
     sys.exit(1)
-print("coq development built:", len(common.coq_sources()), "files")
+print("coq development built for", ", ".join(claimed), "-", len(common.dep_closure(targets)), "files")
